@@ -12,9 +12,11 @@ import (
 	"seehuhn.de/go/sfnt/glyf"
 	"seehuhn.de/go/sfnt/glyph"
 	"seehuhn.de/go/sfnt/maxp"
+	"seehuhn.de/go/sfnt/opentype/anchor"
 	"seehuhn.de/go/sfnt/opentype/classdef"
 	"seehuhn.de/go/sfnt/opentype/coverage"
 	"seehuhn.de/go/sfnt/opentype/gtab"
+	"seehuhn.de/go/sfnt/opentype/markarray"
 )
 
 // verifFont19: a TrueType font with the glyphs .notdef A B C D M N X (ids 0..7), named and mapped unless
@@ -349,4 +351,82 @@ func verifExplainBoth(f *sfnt.Font, which int) {
 		text := ExplainGpos(f)
 		verifAssert(len(text) == 2, "GPOS explained")
 	}
+}
+
+// VerifH_C19_multi: lookups with several subtables (the language separates them with "||"): every ordered pair
+// of subtable alternatives of GPOS 1, GPOS 2, GPOS 3, GPOS 4, GSUB 5 and GSUB 6, with symbolic lookup flags and
+// a few symbolic values, survives explain -> parse.
+func VerifH_C19_multi() {
+	kind := verifChoose("kind", 6)
+	flags := gtab.LookupFlags(verifU16("flags"))
+	verifAssume(flags&^(gtab.IgnoreMarks|gtab.IgnoreLigatures|gtab.IgnoreBaseGlyphs) == 0)
+	f := verifFont19(true, true)
+	vr := func(tag string) *gtab.GposValueRecord {
+		v := funit.Int16(verifI16(tag))
+		verifAssume(v != 0)
+		if tag != "a" {
+			verifAssume(v >= -9 && v <= 9) // one value over all of int16, the others single digits
+		}
+		return &gtab.GposValueRecord{XAdvance: v}
+	}
+	an := func(x, y int16) anchor.Table { return anchor.Table{X: funit.Int16(x), Y: funit.Int16(y)} }
+	act := []gtab.SeqLookup{{SequenceIndex: verifU16("seq"), LookupListIndex: gtab.LookupIndex(verifU16("lookup"))}}
+	var alts []gtab.Subtable
+	typ := uint16(0)
+	gpos := true
+	switch kind {
+	case 0:
+		typ = 1
+		alts = []gtab.Subtable{&gtab.Gpos1_1{Cov: coverage.Table{1: 0, 2: 1}, Adjust: vr("a")}, &gtab.Gpos1_2{Cov: coverage.Table{3: 0, 4: 1}, Adjust: []*gtab.GposValueRecord{vr("b"), vr("c")}}}
+	case 1:
+		typ = 2
+		alts = []gtab.Subtable{gtab.Gpos2_1{glyph.Pair{Left: 1, Right: 2}: &gtab.PairAdjust{First: vr("a")}},
+			&gtab.Gpos2_2{Cov: coverage.Set{1: true, 2: true}, Class1: classdef.Table{2: 1}, Class2: classdef.Table{3: 1},
+				Adjust: [][]*gtab.PairAdjust{{{}, {First: vr("b")}}, {{First: vr("c")}, {}}}}}
+	case 2:
+		typ = 3
+		alts = []gtab.Subtable{&gtab.Gpos3_1{Cov: coverage.Table{1: 0}, Records: []gtab.EntryExitRecord{{Entry: an(1, 2), Exit: an(3, 4)}}},
+			&gtab.Gpos3_1{Cov: coverage.Table{2: 0, 3: 1}, Records: []gtab.EntryExitRecord{{Entry: an(5, 6), Exit: an(7, 8)}, {Entry: an(9, 1), Exit: an(2, 3)}}}}
+	case 3:
+		typ = 4
+		mk := func(m, b glyph.ID) gtab.Subtable {
+			return &gtab.Gpos4_1{MarkCov: coverage.Table{m: 0}, BaseCov: coverage.Table{b: 0},
+				MarkArray: []markarray.Record{{Class: 0, Table: an(1, 1)}}, BaseArray: [][]anchor.Table{{an(10, 20)}}}
+		}
+		alts = []gtab.Subtable{mk(5, 1), mk(6, 2)}
+	case 4:
+		typ, gpos = 5, false
+		alts = []gtab.Subtable{&gtab.SeqContext1{Cov: coverage.Table{1: 0}, Rules: [][]*gtab.SeqRule{{{Input: []glyph.ID{2}, Actions: act}}}},
+			&gtab.SeqContext3{Input: []coverage.Set{{1: true, 2: true}, {3: true}}, Actions: act}}
+	default:
+		typ, gpos = 6, false
+		alts = []gtab.Subtable{&gtab.ChainedSeqContext1{Cov: coverage.Table{1: 0}, Rules: [][]*gtab.ChainedSeqRule{{{Backtrack: []glyph.ID{3}, Input: []glyph.ID{2}, Lookahead: []glyph.ID{4}, Actions: act}}}},
+			&gtab.ChainedSeqContext3{Backtrack: []coverage.Set{{3: true}}, Input: []coverage.Set{{1: true, 2: true}}, Lookahead: []coverage.Set{{4: true}}, Actions: act}}
+	}
+	var subs []gtab.Subtable
+	switch verifChoose("order", 3) {
+	case 0:
+		subs = []gtab.Subtable{alts[0], alts[1]}
+	case 1:
+		subs = []gtab.Subtable{alts[1], alts[0]}
+	default:
+		subs = []gtab.Subtable{alts[1], alts[0], alts[1]}
+	}
+	ll := gtab.LookupList{{Meta: &gtab.LookupMetaInfo{LookupType: typ, LookupFlags: flags}, Subtables: subs}}
+	var text string
+	if gpos {
+		f.Gpos = &gtab.Info{LookupList: ll}
+		text = strings.Join(ExplainGpos(f), "\n")
+	} else {
+		f.Gsub = &gtab.Info{LookupList: ll}
+		text = ExplainGsub(f)
+	}
+	ll2, err := Parse(f, text)
+	verifAssert(err == nil, "explained lookups with several subtables parse")
+	if err != nil {
+		return
+	}
+	verifAssert(verifSame(ll2, ll), "parse(explain(L)) == L for lookups with several subtables")
+	verifAssert(verifLeaked() == 0, "no goroutine left running")
+	verifReach("done")
 }
